@@ -1223,6 +1223,15 @@ class Exec(Sem):
                 m = self.dict_self(o, st)
                 return k(self.dict_self_write(o, self.map_put(m, i, v), st))
         if isinstance(o, SV) and o.ty.kind in ("map", "qmap"):
+            if o.ty.kind == "qmap" and isinstance(i, SV) and i.ty.kind == "opt" and i.ty.args[0] == T.QN:
+                # a None key would be stored as such by the real dict: the index is for qualified names only
+                S = self.cx.sorts
+                nn = NOT(S.is_none(T.QN, i.t))
+                if not st.spec:
+                    self.cx.oblige("key-is-a-name@%s" % getattr(target, "lineno", "?"), st, nn,
+                                   {"kind": "safety", "expr": ast.unparse(target)})
+                    st = st.assume(nn)
+                i = SV(S.the(T.QN, i.t), T.QN)
             newm = self.map_put(o, i, v)
             return self.write_back(target.value, newm, st, k, ctl)
         raise Unsupported("subscript store on %r" % (o,), target)
